@@ -93,6 +93,7 @@ def wfElem (k : SetKind) : Elem → Bool
       | .comm => wfCommPat s
       | .ext | .large => wfPat s
       | _ => false
+  | .raw => k == .prefix || k == .neighbor
 
 def wfActions (a : Actions) : Bool :=
   (match a.med with | some (_, v) => -9223372036854775808 ≤ v && v ≤ 9223372036854775807 | none => true) &&
